@@ -7,7 +7,6 @@
 using namespace vh;
 using namespace XERCES_CPP_NAMESPACE;
 
-static std::map<std::string, long> gTaken, gRes;
 
 static bool sameProj(json a, json b) {
     sortAttrSets(a);
@@ -74,38 +73,32 @@ static json opClsStatic(const json& op, const json& pre, const std::string& res,
 
 static int modeT(int nd) {
     static DomWorld* w = nullptr;
-    static long n = 0, compared = 0, skippedN = 0, mism = 0, torn = 0;
     Supervisor sup;
-    sup.timeoutSec = 10;
+    sup.timeoutSec = 5;
     sup.initChild = [&]() { XMLPlatformUtils::Initialize(); w = new DomWorld(); };
-    sup.handle = [&](const std::string& line) -> std::string {
+    sup.handle = [&](const std::string& line, std::string& stat, bool& tainted) -> std::string {
         json j;
-        if (!decode_tlc_line(line, j)) { torn++; return ""; }
-        n++;
+        if (!decode_tlc_line(line, j)) { stat = "torn"; return ""; }
         const json &pre = j[0], &op = j[1], &post = j[2];
         std::string err;
+        stat = "cases";
         if (!w->build(pre, nd, err)) {
-            mism++;
+            tainted = true;
+            stat += "\tmismatches";
             return dumpLine({{"t", "mismatch"}, {"cls", {{"action", "build"}, {"why", err}}}, {"case", j}, {"why", err}});
         }
         json got;
         std::string res;
         bool skipped;
         std::string why = checkStep(*w, pre, op, post, got, res, skipped);
-        gTaken[op["a"]]++;
-        gRes[op["a"].get<std::string>() + ":" + res]++;
-        if (skipped) skippedN++; else compared++;
+        stat += "\tact:" + op["a"].get<std::string>() + "\tres:" + op["a"].get<std::string>() + ":" + res + (skipped ? "\tskipped_other_line" : "\tcompared");
         if (!why.empty()) {
-            mism++;
-            if (mism <= 2000)
-                return dumpLine({{"t", "mismatch"}, {"cls", clsOf(op, res, why, *w)}, {"why", why},
+            tainted = true;      // the implementation may be in a corrupt state: continue in a fresh process
+            stat += "\tmismatches";
+            return dumpLine({{"t", "mismatch"}, {"cls", clsOf(op, res, why, *w)}, {"why", why},
                       {"case", {{"mode", "T"}, {"ndocs", nd}, {"pre", pre}, {"op", op}, {"expected", post}, {"got", got}, {"res", res}}}});
         }
         return "";
-    };
-    sup.summary = [&]() {
-        return dumpLine({{"t", "summary"}, {"cases", n}, {"compared", compared}, {"skipped_other_line", skippedN}, {"mismatches", mism}, {"torn", torn},
-          {"actions", gTaken}, {"results", gRes}});
     };
     sup.onFail = [&](const std::string& line, const std::string& what) -> std::string {
         json j;
@@ -118,14 +111,13 @@ static int modeT(int nd) {
 
 static int modeW(int nd) {
     static DomWorld* w = nullptr;
-    static long walks = 0, steps = 0, mism = 0, torn = 0;
     Supervisor sup;
     sup.timeoutSec = 20;
     sup.initChild = [&]() { XMLPlatformUtils::Initialize(); w = new DomWorld(); };
-    sup.handle = [&](const std::string& line) -> std::string {
+    sup.handle = [&](const std::string& line, std::string& stat, bool& tainted) -> std::string {
         json h;
-        if (!decode_tlc_line(line, h)) { torn++; return ""; }
-        walks++;
+        if (!decode_tlc_line(line, h)) { stat = "torn"; return ""; }
+        stat = "walks";
         w->reset(nd);
         std::string bad0;
         json pre = w->project(bad0);
@@ -135,11 +127,10 @@ static int modeW(int nd) {
             std::string res;
             bool skipped;
             std::string why = checkStep(*w, pre, op, post, got, res, skipped);
-            steps++;
-            gTaken[op["a"]]++;
-            gRes[op["a"].get<std::string>() + ":" + res]++;
+            stat += "\tsteps\tact:" + op["a"].get<std::string>() + "\tres:" + op["a"].get<std::string>() + ":" + res;
             if (!why.empty()) {
-                mism++;
+                tainted = true;
+                stat += "\tmismatches";
                 json prefix = json::array();
                 for (size_t k = 0; k <= i; k++) prefix.push_back(h[k][0]);
                 return dumpLine({{"t", "mismatch"}, {"cls", clsOf(op, res, why, *w)}, {"why", why},
@@ -149,9 +140,6 @@ static int modeW(int nd) {
             pre = got;
         }
         return "";
-    };
-    sup.summary = [&]() {
-        return dumpLine({{"t", "summary"}, {"walks", walks}, {"steps", steps}, {"mismatches", mism}, {"torn", torn}, {"actions", gTaken}, {"results", gRes}});
     };
     sup.onFail = [&](const std::string& line, const std::string& what) -> std::string {
         json h;
